@@ -482,3 +482,38 @@ func SelfTest() error {
 	}
 	return nil
 }
+
+// ---------------- polynomial consistency of public key shares (reference, small integer multipliers)
+
+// G2OnPolynomial reports whether the point `target` is the value at x* of the unique polynomial "in the exponent" of degree
+// < len(xs) through the points (xs[j], pts[j]).  Lagrange coefficients are cleared of denominators, so only small integer
+// multiples of the points are computed:  sum_j c_j * pts[j] == D * target  with  c_j = D * prod_{k != j} (x* - x_k)/(x_j - x_k).
+func G2OnPolynomial(xs []int64, pts []G2, xstar int64, target G2) bool {
+	n := len(xs)
+	nums := make([]*big.Int, n)
+	dens := make([]*big.Int, n)
+	D := big.NewInt(1)
+	for j := 0; j < n; j++ {
+		nums[j], dens[j] = big.NewInt(1), big.NewInt(1)
+		for k := 0; k < n; k++ {
+			if k == j {
+				continue
+			}
+			nums[j].Mul(nums[j], big.NewInt(xstar-xs[k]))
+			dens[j].Mul(dens[j], big.NewInt(xs[j]-xs[k]))
+		}
+		g := new(big.Int).GCD(nil, nil, new(big.Int).Abs(D), new(big.Int).Abs(dens[j]))
+		D.Mul(D, new(big.Int).Div(new(big.Int).Abs(dens[j]), g))
+	}
+	sum := G2{Inf: true}
+	for j := 0; j < n; j++ {
+		c := new(big.Int).Mul(nums[j], new(big.Int).Div(D, dens[j]))
+		p := pts[j]
+		if c.Sign() < 0 {
+			c.Neg(c)
+			p = p.Neg()
+		}
+		sum = sum.Add(p.Mul(c))
+	}
+	return sum.Equal(target.Mul(D))
+}
